@@ -1029,6 +1029,14 @@ def tab_cli_groups(run):
             lossy.append(f.loc(c["span"]))
         if bi in treg and (c.get("callee") or "").endswith("io::Write::write_all") and any(value_depends_on(f, a, ft["dest"]["l"]) for a in c["args"][1:]):
             printed_formatted = True
+        # a small helper of the driver that writes the bytes it is handed to stdout
+        h_ = run.prog.fn(c.get("resolved") or "") if c.get("resolved_local") else None
+        if bi in treg and h_ is not None and h_.id.startswith("driver::") and any(value_depends_on(f, a, ft["dest"]["l"]) for a in c["args"]):
+            wa = [t2 for _, t2 in h_.calls() if (t2.get("callee") or "").endswith("io::Write::write_all")]
+            from rules_sym import deep as _d3
+            if wa and any(re.fullmatch(r"P\d+", _d3(h_, t2["args"][-1], 3)) for t2 in wa) and not any("from_utf8_lossy" in (t2.get("callee") or "") for _, t2 in h_.calls()):
+                printed_formatted = True
+                prints_true.append(bi)
     run.check(not lossy, R, R + "|group|print-bytes-unchanged", f.loc(), "the printed output is the formatted bytes themselves",
               "assemble_with_command prints the formatted output through String::from_utf8_lossy (%s): a raw binary output with bytes that are not valid UTF-8 (`#d8 0x80` with `-f binary -p`) is printed as other bytes (ef bf bd)" % ", ".join(lossy))
     run.check(wb in freg and wb not in treg, R, R + "|group|write-only-when-not-printing", f.loc(wt["span"]),
